@@ -317,6 +317,24 @@ func (e *Env) call(ctx context.Context, op Op, r *Rec) error {
 			return nil
 		}
 		return u.Flush(ctx)
+	case "flush-racing":
+		// N explicit flushes whose contexts end after 0, 7, 14, ... microseconds: cancellation lands before, inside and after the
+		// hand-over to the flush loop. Their errors do not matter; what the stream does afterwards does.
+		u := e.up(op.Obj)
+		if u == nil {
+			r.Skip = "not open"
+			return nil
+		}
+		n := op.N
+		if n == 0 {
+			n = 40
+		}
+		for i := 0; i < n; i++ {
+			fctx, fc := context.WithTimeout(context.Background(), time.Duration(i%25)*7*time.Microsecond)
+			u.Flush(fctx)
+			fc()
+		}
+		return nil
 	case "close-up":
 		u := e.up(op.Obj)
 		if u == nil {
